@@ -364,6 +364,109 @@ def check_free(case):
                 raise Violation('free-running thread %d evaluated %r to %r, alone it gives %r (not deterministically replayable)' % (i, f, g, w), enc(g['result']) if g['error'] is None else g['error'], None)
 
 
+# ---------------------------------------------------------------- evaluations on one parser must not change what another one sees
+
+from ..ref import cells as rcells
+
+
+def coord_value(base, label):
+    ri, ci, ra, ca = rcells.parse_label(label)
+    return base + ri * 10 + ci
+
+
+ref_leaf = st.one_of(
+    st.tuples(st.booleans(), st.sampled_from(['A', 'B', 'C', 'Z', 'AA', 'c', 'aa']), st.booleans(), st.integers(1, 12)).map(lambda t: ['cell', ('$' if t[0] else '') + t[1] + ('$' if t[2] else '') + str(t[3])]),
+    st.tuples(st.sampled_from(['A1', 'C3', 'B2', 'C1', 'A3', '$C$3', 'a3', 'AA2']), st.sampled_from(['A1', 'C3', 'B2', 'C1', 'A3', 'C$3', 'c1', 'Z9'])).map(lambda t: ['range', t[0], t[1]]),
+    st.sampled_from(['1', '2']).map(lambda x: ['num', x]))
+
+
+def ref_trees():
+    def extend(ch):
+        return st.one_of(st.tuples(st.just('call'), st.sampled_from(['SUM', 'MAX', 'MIN']), st.lists(ch, min_size=1, max_size=3)).map(list),
+                         st.tuples(st.just('bin'), st.sampled_from(['+', '-', '*']), ch, ch).map(list), st.tuples(st.just('paren'), ch).map(list))
+    return st.recursive(ref_leaf, extend, max_leaves=5)
+
+
+def ref_value(t, base):
+    k = t[0]
+    if k == 'num':
+        return int(t[1])
+    if k == 'cell':
+        return coord_value(base, t[1])
+    if k == 'range':
+        a, b = rcells.parse_label(t[1]), rcells.parse_label(t[2])
+        return [base + min(a[0], b[0]), base + max(a[0], b[0]), base * 2 + min(a[1], b[1]), base * 2 + max(a[1], b[1])]
+    if k == 'paren':
+        return ref_value(t[1], base)
+    if k == 'call':
+        items = []
+        for a in t[2]:
+            v = ref_value(a, base)
+            items.extend(v if isinstance(v, list) else [v])
+        return {'SUM': sum, 'MAX': max, 'MIN': min}[t[1]](items)
+    l, r = ref_value(t[2], base), ref_value(t[3], base)
+    if isinstance(l, list) or isinstance(r, list):
+        raise Skip('array-arithmetic')
+    return l + r if t[1] == '+' else (l - r if t[1] == '-' else l * r)
+
+
+def coord_parser(base, seen):
+    P = hot().Parser()
+
+    def cells(cell, setter):
+        seen.append((cell.label, cell.row.index, cell.col.index, cell.row.is_absolute, cell.col.is_absolute))
+        setter(base + cell.row.index * 10 + cell.col.index)
+
+    def ranges(s, e, setter):
+        seen.append((s.label, s.row.index, s.col.index, s.row.is_absolute, s.col.is_absolute))
+        seen.append((e.label, e.row.index, e.col.index, e.row.is_absolute, e.col.is_absolute))
+        setter([base + s.row.index, base + e.row.index, base * 2 + s.col.index, base * 2 + e.col.index])
+    P.on('callCellValue', cells)
+    P.on('callRangeValue', ranges)
+    return P
+
+
+def check_cross_state(case):
+    seenA, seenB = [], []
+    A = coord_parser(1000, seenA)
+    B = coord_parser(500000, seenB)
+    for i, step in enumerate(case['steps']):
+        who, t = step
+        text = gf.render(t)
+        P, base, seen = (A, 1000, seenA) if who == 'A' else (B, 500000, seenB)
+        del seen[:]
+        r = P.parse(text)
+        try:
+            want = ref_value(t, base)
+        except Skip:
+            continue
+        if r['error'] is not None or r['result'] != want:
+            raise Violation('step %d: parser %s evaluates %r to %r after the evaluations %r; its listeners answer from the coordinates they are handed, the coordinates written in the formula give %r' % (
+                i, who, text, r['error'] or r['result'], [(w, gf.render(x)) for w, x in case['steps'][:i]], want), r['error'] or enc(r['result']), enc(want))
+        for lab, ri, ci, ra, ca in seen:
+            p = rcells.parse_label(lab) if isinstance(lab, str) else None
+            if p != (ri, ci, ra, ca):
+                raise Violation('step %d: parser %s evaluating %r handed its listener the cell %r with row=%r col=%r markers=%r/%r (after %r)' % (i, who, text, lab, ri, ci, ra, ca, [(w, gf.render(x)) for w, x in case['steps'][:i]]), None, None)
+
+
+cross_case = st.fixed_dictionaries({'steps': st.lists(st.tuples(st.sampled_from(['A', 'B']), ref_trees()).map(list), min_size=2, max_size=8)})
+
+
+def cross_classes(c):
+    out = set()
+    for who, t in c['steps']:
+        for n in gf.walk(t):
+            if n[0] == 'range':
+                a, b = rcells.parse_label(n[1]), rcells.parse_label(n[2])
+                if a[0] > b[0] or a[1] > b[1]:
+                    out.add('reversed-range')
+            if n[0] == 'cell' and '$' in n[1]:
+                out.add('absolute-cell')
+    if len(set(w for w, t in c['steps'])) == 2:
+        out.add('both-parsers')
+    return sorted(out)
+
+
 # ---------------------------------------------------------------- binding isolation
 
 op_s = st.one_of(
@@ -413,7 +516,7 @@ def check_bindings(case):
 
 
 LAWS = [
-    Law('nested', check_nested, strategy=nested_case(), key=nested_key, classes=nested_classes, quick=5000, thorough=200000, shards=(16, 16),
+    Law('nested', check_nested, strategy=nested_case(), key=nested_key, classes=nested_classes, quick=3000, thorough=200000, shards=(16, 16),
         required=('same-parser', 'other-parser', 'order:AB', 'order:BA', 'continues-after-hook', 'hook-first', 'hook:call', 'hook:cell', 'hook:var', 'hook:range', 'depth2'),
         nontrivial=lambda c: 'continues-after-hook' in nested_classes(c) and len(c['fb']) >= 3,
         rule='outer formula on parser A with 1-3 interposition points (a custom function, or a listener on a cell / range / variable / function event) at generated structural positions; at each point a complete evaluation of a second formula runs on pre-built parser B '
@@ -426,6 +529,10 @@ LAWS = [
              'every outcome must equal the solo outcome; non-trivial = at least two switches landing inside an evaluation'),
     Law('threads_free', check_free, enumerate=enum_free, shards=(1, 4), key=lambda c: 'thread-interleaving',
         rule='thorough only: 8 free-running threads x distinct parsers x 200 formulas with a 1 microsecond switch interval; every outcome equals the solo outcome'),
+    Law('cross_parser_state', check_cross_state, strategy=cross_case, classes=cross_classes, required=('reversed-range', 'absolute-cell', 'both-parsers'), quick=1500, thorough=60000, shards=(8, 16),
+        nontrivial=lambda c: 'both-parsers' in cross_classes(c), key=lambda c: 'cross-parser-state',
+        rule='2-8 evaluations alternating between two parsers whose listeners answer purely from the coordinates they are handed (formulas over cells with every marker pattern and ranges in all corner orders, SUM/MAX/MIN, + - *): '
+             'every outcome equals the value computed from the coordinates *written in the formula* by the reference label parser, and every cell handed to a listener has a label that re-parses to its own coordinates - an oracle that shares no state with the library'),
     Law('binding_isolation', check_bindings, strategy=st.fixed_dictionaries({'ops': st.lists(op_s, min_size=1, max_size=10), 'order': st.sampled_from(['A-first', 'B-first'])}),
         quick=1500, thorough=60000, shards=(8, 16), nontrivial=lambda c: len(c['ops']) >= 2,
         rule='1-10 registrations on parser A (set_variable incl. TRUE, set_function incl. SUM, on/once/off for the four events, evaluations): after each, parser B gives the outcomes of an untouched parser for 12 probe formulas and holds none of A\'s variables, functions or listeners'),
